@@ -99,9 +99,9 @@ _RW_TEMPLATE = """{
             'final_states': [2]},
 }
 """
-# same length: 0, 1, 2, 3 differ in one character each (a reward, an action name, a successor, the game's name); 4 is longer
+# same length: 0, 1, 2, 3 differ in one character each (a reward, an action name, the game's name); 4 (thorough tier) is longer
 RW_TEXTS = [_RW_TEMPLATE % ("game_1", 3, "a", 2), _RW_TEMPLATE % ("game_1", 5, "a", 2), _RW_TEMPLATE % ("game_1", 3, "b", 2),
-            _RW_TEMPLATE % ("game_2", 3, "a", 2), _RW_TEMPLATE % ("game_1", 3, "a", 1) + "\n"]
+            _RW_TEMPLATE % ("game_2", 3, "a", 2), _RW_TEMPLATE % ("game_1", 7, "a", 2) + "# regenerated\n"]
 RW_STAMP = 1_700_000_000_000_000_000
 
 
